@@ -114,6 +114,12 @@ def check(case, ev):
                 raise Violation(f"evaluate_propositions reports unknown id {i!r}")
             if got != (want, want):
                 raise Violation(f"evaluate_propositions[{i!r}]={got}, arithmetic value {want}; interpretation={_show(interp)}")
+        if n % 5 == 0:
+            # the documented ``out`` callback changes the value type of every entry, nothing else
+            mm3 = build.model(spec) if overrides else m
+            res3 = call(mm3.evaluate_propositions, interp, out=lambda b_: ("out", int(b_.lower), int(b_.upper)), what="evaluate_propositions(out=...)")
+            if {k_: ("out",) + oracle.bounds_tuple(v_) for k_, v_ in res.items()} != res3:
+                raise Violation(f"evaluate_propositions(out=callback) is not the callback applied to the plain result: {res3} vs {res}")
         mm2 = build.model(spec) if overrides else m
         top = oracle.bounds_tuple(call(mm2.evaluate, interp, what="evaluate"))
         if top != (want_root, want_root):
